@@ -220,11 +220,7 @@ func valDesc(v interface{}) string {
 	if isNil(v) {
 		return "<nil>"
 	}
-	s := fmt.Sprintf("%+v", deref(v))
-	if len(s) > 300 {
-		s = s[:300] + "..."
-	}
-	return s
+	return render(v, true)
 }
 
 func deref(v interface{}) interface{} {
